@@ -13,7 +13,7 @@ FAILING = ['addi x1, x1, 5000', 'add x1, x1, foo', 'j nolabel', 'addi x1, x1, NO
            'include nosuch_file.asm', 'db 256', 'li x5, SHARED_L', 'addi x8, x8, SHARED_K', 'beq x1, x2, SHARED_L']
 
 
-def build_pool(seed, n=60):
+def build_pool(seed, n=84):
     """-> list of entries {'src': text | None, 'tree': bool, 'compress': bool, 'dicts': bool}"""
     rng = random.Random('c16-pool-%d' % seed)
     pool = []
@@ -64,12 +64,17 @@ def build_pool(seed, n=60):
     pool.append({'src': 'addi x1, x0, t\n', 'compress': False, 'dicts': True})
     pool.append({'src': 'Y = sum((u := k) for k in [1, 2])\nZ = max([w := 7, 1])\naddi x2, x0, Y + Z\n', 'compress': True, 'dicts': False})
     pool.append({'src': 'addi x3, x0, u + w\n', 'compress': False, 'dicts': False})
+    # one spelling, `OFF`, a constant in one program and a label that still moves in the next, both under -c in an RVC-eligible
+    # position: what was decided about the text of an operand in one call says nothing about the next call
+    pool.append({'src': 'OFF = 8\nlw x8, OFF(x9)\naddi x9, x9, OFF\nc.nop\n', 'compress': True, 'dicts': True})
+    pool.append({'src': 'li x9, 1\nOFF:\nlw x8, OFF(x9)\naddi x9, x9, OFF\nlw x10, 4(x8)\n', 'compress': True, 'dicts': True})
+    pool.append({'src': 'OFF = 4\nli x9, 1\nsw x8, OFF(x9)\n', 'compress': True, 'dicts': False})
     # every label-moving step at least once (short li, near call, compression, align), four labels, run with a left-over table
     for k in range(2):
         pool.append({'src': 'A0:\nli x5, 1\nA1:\naddi x8, x8, 1\nA2:\ncall A0\nbytes 1 2\nalign 8\nA3:\nj A1\nbeqz x8, A3\ntail A2\nli x6, A2\ndw A3\ndw A1\n',
                      'compress': bool(k), 'dicts': True, 'stale': True})
     # same label / constant names, different values
-    while len(pool) < n - 6:
+    while len(pool) < n - 8:
         items = randprog.gen(rng, dict(n=(3, 25), labels=(1, 4)))
         if rng.random() < 0.6:
             items = randprog.constify(rng, items, 0.4)
@@ -80,6 +85,10 @@ def build_pool(seed, n=60):
     # include trees (exercise include_dirs)
     for k in range(4):
         pool.append({'src': None, 'tree': k, 'compress': bool(k & 1), 'dicts': True})
+    # trees 6, 7: both include the same, never modified file `shared2/part.asm`, whose own `include board.asm` is found through the
+    # include_dirs of the call - another directory in each of the two
+    pool.append({'src': None, 'tree': 6, 'compress': False, 'dicts': True, 'expect_out': '13051000'})      # addi x10, x0, BOARD (= 1)
+    pool.append({'src': None, 'tree': 7, 'compress': False, 'dicts': True, 'expect_out': '13052000'})      # addi x10, x0, BOARD (= 2)
     # trees 4, 5: the included file itself includes a file that does not exist (read-time failure two levels down); tree 5 shares the
     # included file with tree 4
     pool.append({'src': None, 'tree': 4, 'compress': False, 'dicts': True})
@@ -88,6 +97,18 @@ def build_pool(seed, n=60):
 
 
 def make_tree(root, k):
+    if k >= 6:
+        shared = os.path.join(root, 'shared2')
+        board = os.path.join(root, 'boards', 'ab'[k - 6])
+        src = os.path.join(root, 'srcboard%d' % k)
+        for d in (shared, board, src):
+            os.makedirs(d, exist_ok=True)
+        part = os.path.join(shared, 'part.asm')
+        if not os.path.exists(part):
+            open(part, 'w').write('include board.asm\naddi x10, x0, BOARD\n')
+        open(os.path.join(board, 'board.asm'), 'w').write('BOARD = %d\n' % (k - 5))
+        open(os.path.join(src, 'main.asm'), 'w').write('include part.asm\n')
+        return os.path.join(src, 'main.asm'), [shared, board]
     if k >= 4:
         shared = os.path.join(root, 'shared')
         src = os.path.join(root, 'srcbad%d' % k)
